@@ -38,7 +38,6 @@ theorem inflateCodes_le (lit dist : Huff) : ∀ (f f' : Nat) (out : Array UInt8)
     apply RLe.bind (RLe.refl _); intro ds
     apply RLe.ite (RLe.refl _)
     apply RLe.bind (RLe.refl _); intro db
-    apply RLe.ite (RLe.refl _)
     exact inflateCodes_le lit dist f f' _ (by omega)
 
 theorem dynamicBlock_le (f f' : Nat) (out : Array UInt8) (h : f ≤ f') : RLe (dynamicBlock f out) (dynamicBlock f' out) := by
@@ -47,7 +46,9 @@ theorem dynamicBlock_le (f f' : Nat) (out : Array UInt8) (h : f ≤ f') : RLe (d
   apply RLe.bind (RLe.refl _); intro hdist
   apply RLe.bind (RLe.refl _); intro hclen
   apply RLe.bind (RLe.refl _); intro clv
+  apply RLe.ite (RLe.refl _)
   apply RLe.bind (RLe.refl _); intro lens
+  apply RLe.ite (RLe.refl _)
   apply RLe.ite (RLe.refl _)
   exact inflateCodes_le _ _ f f' out h
 
